@@ -79,7 +79,7 @@ def replay(beh, cfg, tol=None):
     try:
         trace, extra = G.run_scenario(sc, tape_mode="script", script=[], keep_raw=True, provider=prov)
     except TapeMismatch as e:
-        return [("replay.draw_kind_range", -1, str(e))], None, sc
+        return [("replay.draw_range" if e.reason == "range" else "replay.not_followed", -1, str(e))], None, sc
     raws = extra["raws"]
     extra_rows = extra["rows_after"]
     exact = tol is None
@@ -96,8 +96,7 @@ def replay(beh, cfg, tol=None):
             break
         faulted = want_out == "exc"
         if call.get("unconsumed") and not faulted:
-            problems.append(("replay.draw_kind_range", i, "%d draws of the behaviour were never requested by the code (it took "
-                             "these choices from somewhere else)" % call["unconsumed"]))
+            problems.append(("replay.not_followed", i, "%d draws of the behaviour were never requested by the code" % call["unconsumed"]))
         clause = "replay.fault_atomic" if faulted else "replay.state"
         # importance / variance per feature (absent key = tracker never updated = 0)
         for nm, key in (("imp", "imp"), ("var", "var")):
